@@ -1468,6 +1468,21 @@ func (g *G) genFunc(i int) *Func {
 			}
 		}
 	}
+	if r.Chance(1, 8) {
+		// a three-clause loop whose POST is a bare call of a function-typed local variable that
+		// is re-assigned while the loop runs; and an expression statement that merely CONTAINS
+		// a call of panic (inside a closure invoked on the spot), followed by live statements
+		p0 := "1"
+		if len(f.Params) > 0 {
+			p0 = f.Params[0]
+		}
+		id := g.id()
+		t1, t2 := g.nextTag(), g.nextTag()
+		text := fmt.Sprintf("n%[1]d := 0\nup%[1]d := func() { n%[1]d++ }\ndown%[1]d := func() { n%[1]d -= 2 }\nstep%[1]d := up%[1]d\nfor k%[1]d := 0; k%[1]d < 5; step%[1]d() {\n\tk%[1]d++\n\t«Yield»(n%[1]d + 200)\n\tif k%[1]d == 2 {\n\t\tstep%[1]d = down%[1]d\n\t}\n}\nfunc() {\n\tif %[2]s < -1000 {\n\t\tpanic(\"not in this run\")\n\t}\n\tvrt.E(%[3]d)\n}()\nvrt.E(%[4]d, n%[1]d)\n«Yield»(n%[1]d)", id, p0, t1, t2)
+		f.Body = append([]*S{{K: SRaw, ID: id, Src: text}}, f.Body...)
+		g.mark("for_post_is_a_call_of_a_reassigned_function_variable")
+		g.mark("expression_statement_containing_a_panic_call_followed_by_live_statements")
+	}
 	if len(f.Params) > 0 && r.Chance(1, 8) {
 		// the body STARTS with an argument check that panics: the panic belongs to the first
 		// advance, calling the generator function runs nothing
